@@ -664,10 +664,17 @@ package lang
 
 // ---------------------------------------------------------------- members (C09, C20) -- safety and error protocol
 
-//@ func Value.GetMember [C01,C09,C11]
+//@ func Value.GetMember [C01,C09,C11,C15]
 //@   requires v != nil && !$faulted
 //@   updates $faulted
 //@   modifies nothing
+//@   ensures[C15] array-index-before-start-is-error: v.Tag == ValueArray && member.Tag == ValueNum && effIndex(len(v.Array), member) < 0 ==> err != nil
+//@   ensures[C15] array-element: v.Tag == ValueArray && member.Tag == ValueNum && 0 <= effIndex(len(v.Array), member) && effIndex(len(v.Array), member) < len(v.Array) ==> err == nil && result0 == v.Array[effIndex(len(v.Array), member)]
+//@   ensures[C09] array-past-end-is-detached-null: v.Tag == ValueArray && member.Tag == ValueNum && effIndex(len(v.Array), member) >= len(v.Array) ==> err == nil && result0 != nil && fresh(result0) && result0.Value.Tag == ValueNil && result0.Value.ParentObj == v
+//@   ensures[C09] object-key-kind: v.Tag == ValueObj && member.Tag != ValueNum && member.Tag != ValueStr ==> err != nil
+//@   ensures[C09] object-own-member: v.Tag == ValueObj && err == nil && has(*v.Obj, specStr(member)) ==> result0 == (*v.Obj)[specStr(member)]
+//@   ensures[C16] object-absent-without-prototype: v.Tag == ValueObj && err == nil && !has(*v.Obj, specStr(member)) && v.Proto == nil ==> result0 == nil
+//@   ensures[C09] string-index: v.Tag == ValueStr && member.Tag == ValueNum ==> err == nil && result0 != nil && fresh(result0)
 //@   ensures[C01] errkind: err == nil || isPlainErr(err)
 //@   ensures[C11] fault-latched: $faulted <==> err != nil
 
@@ -1029,3 +1036,134 @@ package lang
 //@   assert[C06] assignment-is-right-associative: arg1 == PrecAssign @ Parser.expressionWithPrec
 //@   ensures[C06] node-shape: result1 == nil && old(arg0.current.Tag) == Equal ==> istype(result0, *ExprBinary) && as(result0, *ExprBinary).Left == arg1 && as(result0, *ExprBinary).OpToken.Tag == Equal
 //@   ensures[C11] target-is-assignable: result1 == nil ==> !istype(arg1, *ExprLiteral) && !istype(arg1, *ExprArray) && !istype(arg1, *ExprObject) && (istype(arg1, *ExprBinary) ==> as(arg1, *ExprBinary).OpToken.Tag == Dot || as(arg1, *ExprBinary).OpToken.Tag == LSquare)
+
+// ---------------------------------------------------------------- native methods and builtins (C15, C16)
+
+//@ spec func numOf(x int) float64 = float64(x)
+
+// array.length()
+//@ func getArrayPrototype$1 [C15]
+//@   implements Value.NativeFn
+//@   ensures[C15] counts-elements: this != nil && this.Tag == ValueArray ==> err == nil && result0 != nil && result0.Tag == ValueNum && same(*result0.Num, numOf(len(this.Array)))
+//@   ensures[C16] neutral-otherwise: (this == nil || this.Tag != ValueArray) ==> err == nil && result0 != nil && result0.Tag == ValueNum && same(*result0.Num, numOf(0))
+//@   modifies nothing
+
+// array.push(x)
+//@ func getArrayPrototype$2 [C15]
+//@   implements Value.NativeFn
+//@   ensures[C15] one-argument: this != nil ==> ((err != nil) <==> len(v) != 1)
+//@   ensures[C15] refused-push-changes-nothing: err != nil ==> this.Array == old(this.Array)
+//@   ensures[C15] appends-one: this != nil && err == nil ==> result0 == this && len(this.Array) == len(old(this.Array)) + 1 && fresh(this.Array[len(old(this.Array))]) && this.Array[len(old(this.Array))].Value == old(*v[0])
+//@   ensures[C15] keeps-earlier-elements: this != nil && err == nil ==> (forall k int :: 0 <= k && k < len(old(this.Array)) ==> this.Array[k] == old(this.Array[k]))
+//@   ensures[C16] no-receiver: this == nil ==> err == nil && result0 == nil
+//@   modifies this.Array, spare(this.Array)
+
+// array.pop()
+//@ func getArrayPrototype$3 [C15]
+//@   implements Value.NativeFn
+//@   ensures[C15] no-arguments: this != nil ==> ((err != nil) <==> len(v) != 0)
+//@   ensures[C15] empty-yields-null: this != nil && err == nil && len(old(this.Array)) == 0 ==> result0 != nil && result0.Tag == ValueNil && this.Array == old(this.Array)
+//@   ensures[C15] removes-last: this != nil && err == nil && len(old(this.Array)) > 0 ==> result0 != nil && *result0 == old(this.Array[len(this.Array)-1].Value) && len(this.Array) == len(old(this.Array)) - 1 && sameBacking(this.Array, old(this.Array))
+//@   ensures[C15] refused-pop-changes-nothing: err != nil ==> this.Array == old(this.Array)
+//@   modifies this.Array
+
+// array.popfirst()
+//@ func getArrayPrototype$4 [C15]
+//@   implements Value.NativeFn
+//@   ensures[C15] no-arguments: this != nil ==> ((err != nil) <==> len(v) != 0)
+//@   ensures[C15] empty-yields-null: this != nil && err == nil && len(old(this.Array)) == 0 ==> result0 != nil && result0.Tag == ValueNil && this.Array == old(this.Array)
+//@   ensures[C15] removes-first: this != nil && err == nil && len(old(this.Array)) > 0 ==> result0 != nil && *result0 == old(this.Array[0].Value) && len(this.Array) == len(old(this.Array)) - 1 && (forall k int :: 0 <= k && k < len(this.Array) ==> this.Array[k] == old(this.Array[k+1]))
+//@   ensures[C15] refused-pop-changes-nothing: err != nil ==> this.Array == old(this.Array)
+//@   modifies this.Array
+
+// array.contains(x): agrees with == applied to each element in order
+//@ spec func specEq(a Value, b Value) bool = !specLess(a, b) && !specGreater(a, b)
+//@ spec func comparable(a Value, b Value) bool = a.Tag == ValueNil || b.Tag == ValueNil || (!isContainerTag(a.Tag) && !isContainerTag(b.Tag))
+//@ func getArrayPrototype$5 [C15]
+//@   implements Value.NativeFn
+//@   ensures[C15] one-argument: this != nil && len(v) != 1 ==> err != nil
+//@   ensures[C15] found-means-some-element-equals: this != nil && err == nil && *result0.Bool ==> (exists k int :: 0 <= k && k < len(this.Array) && comparable(*v[0], this.Array[k].Value) && specEq(*v[0], this.Array[k].Value))
+//@   ensures[C15] not-found-means-none-equals: this != nil && err == nil && !*result0.Bool ==> (forall k int :: 0 <= k && k < len(this.Array) ==> comparable(*v[0], this.Array[k].Value) && !specEq(*v[0], this.Array[k].Value))
+//@   ensures[C15] result-is-bool: this != nil && err == nil ==> result0 != nil && result0.Tag == ValueBool
+//@   modifies nothing
+//@   loop 0 invariant scanned: !$faulted && (forall k int :: 0 <= k && k <= rangeindex ==> comparable(*v[0], this.Array[k].Value) && !specEq(*v[0], this.Array[k].Value))
+
+// object.length()
+//@ func getObjPrototype$1 [C16]
+//@   implements Value.NativeFn
+//@   ensures[C16] counts-keys: this != nil && this.Tag == ValueObj ==> err == nil && result0 != nil && result0.Tag == ValueNum && same(*result0.Num, numOf(len(*this.Obj)))
+//@   ensures[C16] neutral-otherwise: (this == nil || this.Tag != ValueObj) ==> err == nil && result0 != nil && result0.Tag == ValueNum && same(*result0.Num, numOf(0))
+//@   modifies nothing
+
+// string.length(), lower(), upper()
+//@ func getStrPrototype$1 [C16]
+//@   implements Value.NativeFn
+//@   ensures[C16] counts-bytes: this != nil && this.Tag == ValueStr ==> err == nil && result0 != nil && result0.Tag == ValueNum && same(*result0.Num, numOf(len(*this.Str)))
+//@   ensures[C16] neutral-otherwise: (this == nil || this.Tag != ValueStr) ==> err == nil && result0 != nil && result0.Tag == ValueNum && same(*result0.Num, numOf(0))
+//@   modifies nothing
+//@ func getStrPrototype$3 [C16]
+//@   implements Value.NativeFn
+//@   ensures[C16] lower-cased-copy: this != nil && this.Tag == ValueStr ==> err == nil && result0 != nil && result0.Tag == ValueStr && *result0.Str == smt("s_lower", string, *this.Str)
+//@   ensures[C16] neutral-otherwise: (this == nil || this.Tag != ValueStr) ==> err == nil && result0 != nil && result0.Tag == ValueNum
+//@   modifies nothing
+//@ func getStrPrototype$4 [C16]
+//@   implements Value.NativeFn
+//@   ensures[C16] upper-cased-copy: this != nil && this.Tag == ValueStr ==> err == nil && result0 != nil && result0.Tag == ValueStr && *result0.Str == smt("s_upper", string, *this.Str)
+//@   ensures[C16] neutral-otherwise: (this == nil || this.Tag != ValueStr) ==> err == nil && result0 != nil && result0.Tag == ValueNum
+//@   modifies nothing
+
+// number.floor(), ceil(), round(): round-to-integral toward -inf, toward +inf, to nearest with ties away from zero
+//@ func getNumPrototype$1 [C16]
+//@   implements Value.NativeFn
+//@   ensures[C16] floor: this != nil && this.Tag == ValueNum ==> err == nil && result0 != nil && result0.Tag == ValueNum && same(*result0.Num, smt("frtn", float64, *this.Num))
+//@   ensures[C16] neutral-otherwise: (this == nil || this.Tag != ValueNum) ==> err == nil && result0 != nil && result0.Tag == ValueNil
+//@   modifies nothing
+//@ func getNumPrototype$2 [C16]
+//@   implements Value.NativeFn
+//@   ensures[C16] ceil: this != nil && this.Tag == ValueNum ==> err == nil && result0 != nil && result0.Tag == ValueNum && same(*result0.Num, smt("frtp", float64, *this.Num))
+//@   ensures[C16] neutral-otherwise: (this == nil || this.Tag != ValueNum) ==> err == nil && result0 != nil && result0.Tag == ValueNil
+//@   modifies nothing
+//@ func getNumPrototype$3 [C16]
+//@   implements Value.NativeFn
+//@   ensures[C16] round-half-away-from-zero: this != nil && this.Tag == ValueNum ==> err == nil && result0 != nil && result0.Tag == ValueNum && same(*result0.Num, smt("frna", float64, *this.Num))
+//@   ensures[C16] neutral-otherwise: (this == nil || this.Tag != ValueNum) ==> err == nil && result0 != nil && result0.Tag == ValueNil
+//@   modifies nothing
+
+// num(x)
+//@ func nativeNum [C16]
+//@   implements Value.NativeFn
+//@   ensures[C16] one-argument: (err != nil) <==> len(args) != 1
+//@   ensures[C16] numeric-string: err == nil && args[0].Tag == ValueStr && pfOK(*args[0].Str) ==> result0 != nil && result0.Tag == ValueNum && same(*result0.Num, pfVal(*args[0].Str))
+//@   ensures[C16] non-numeric-string-is-null: err == nil && args[0].Tag == ValueStr && !pfOK(*args[0].Str) ==> result0 != nil && result0.Tag == ValueNil
+//@   ensures[C16] other-kinds-are-null: err == nil && args[0].Tag != ValueStr && args[0].Tag != ValueNum ==> result0 != nil && result0.Tag == ValueNil
+//@   modifies nothing
+
+// object.pluck(k1, ...): a new object; every requested key is looked up among the receiver's OWN members
+// (a prototype-less view of it) and stored in the new object under that key in a fresh cell; the receiver
+// is not touched.  Stated per step (site assertions); that the steps add up to "exactly the requested
+// keys with the original's values" follows with SetMember's contract (object-stored / object-others-kept)
+// by induction over the argument list (lemma L16, not machine-checked).
+//@ func getObjPrototype$2 [C16]
+//@   implements Value.NativeFn
+//@   ensures[C16] new-object: err == nil ==> result0 != nil && fresh(result0) && result0.Tag == ValueObj && result0.Obj != nil && fresh(result0.Obj) && fresh(*result0.Obj)
+//@   assert[C16] looks-up-own-members-only: arg0.Tag == ValueObj && arg0.Proto == nil && arg0.Obj == this.Obj && arg1 == *value @ Value.GetMember
+//@   assert[C16] stores-a-fresh-cell-under-the-requested-key: arg0 == &newObj && fresh(arg2) && arg1 == *value @ Value.SetMember
+//@   modifies nothing
+//@   loop 0 invariant building: !$faulted && newObj.Tag == ValueObj && newObj.Obj != nil && fresh(newObj.Obj) && *newObj.Obj != nil && fresh(*newObj.Obj) && own.Tag == ValueObj && own.Proto == nil && own.Obj == this.Obj
+
+// array.sort(): a fresh array of fresh copies, ordered by a stable library sort; the receiver is untouched.
+// The order itself (numeric when every element is a number, else by string form) is the comparator's:
+// getArrayPrototype$6$1 below.  That the result is a stably sorted permutation is the assumed contract
+// of slices.SortStableFunc.
+//@ ghost $stableSort bool
+//@ func getArrayPrototype$6 [C15]
+//@   implements Value.NativeFn
+//@   init $stableSort = false
+//@   after slices.SortStableFunc[[]*github.com/alligator/jqawk/src.Cell *github.com/alligator/jqawk/src.Cell]: $stableSort = true
+//@   assume array-elements-are-never-functions: arg0.Value.Tag != ValueFn && arg0.Value.Tag != ValueNativeFn @ copyValue
+//@   ensures[C15] no-receiver: this == nil ==> err == nil && result0 == nil
+//@   ensures[C15] sorted-copy: this != nil ==> err == nil && result0 != nil && fresh(result0) && result0.Tag == ValueArray && len(result0.Array) == len(this.Array) && fresh(result0.Array)
+//@   ensures[C15] stable-sort: this != nil ==> $stableSort
+//@   modifies nothing
+//@   loop 0 invariant scan: !$faulted
+//@   loop 1 invariant copying: !$faulted && fresh(clone) && len(clone) == len(this.Array) && (forall k int :: 0 <= k && k <= rangeindex ==> clone[k] != nil && fresh(clone[k]))
